@@ -911,7 +911,7 @@ class Collection(object):
             if not document:
                 _id = spec.get('_id', existing_document.get('_id'))
                 existing_document.clear()
-                if _id:
+                if _id is not None:
                     existing_document['_id'] = _id
 
             if was_insert:
